@@ -6,6 +6,7 @@ import (
 	"hash/fnv"
 	"math/rand"
 	"reflect"
+	"runtime"
 	"sort"
 	"strings"
 	"time"
@@ -19,6 +20,7 @@ import (
 	"google.golang.org/protobuf/reflect/protoregistry"
 	"google.golang.org/protobuf/types/known/fieldmaskpb"
 
+	"github.com/smart-core-os/sc-golang/pkg/resource"
 	"github.com/smart-core-os/sc-golang/verifharness/cmd/c07/pbgen"
 	"github.com/smart-core-os/sc-golang/verifharness/lib"
 )
@@ -36,6 +38,10 @@ type triple struct {
 
 func (t triple) key() string { return t.Row.key() + "/" + t.X }
 
+// isPair: the service has Get and Pull for the resource but no Update RPC (sensors): the register is
+// written at the model level only.
+func (t triple) isPair() bool { return t.update == nil }
+
 // keyedTriples records Get/Update/Pull name triples that address collection items by key (skipped).
 var keyedTriples = map[string]bool{}
 
@@ -46,7 +52,8 @@ type unwrapper interface {
 // discover finds the Get/Update/Pull triples of the service a stack row serves, from the service
 // descriptor (protoregistry), not from a list.
 func discover(row stackRow) ([]triple, string, error) {
-	c, ok := row.New().(unwrapper)
+	cl, _ := row.New()
+	c, ok := cl.(unwrapper)
 	if !ok {
 		return nil, "", fmt.Errorf("%s: client has no UnwrapService", row.key())
 	}
@@ -67,11 +74,20 @@ func discover(row stackRow) ([]triple, string, error) {
 		x := strings.TrimPrefix(name, "Get")
 		u := ms.ByName(protoreflect.Name("Update" + x))
 		p := ms.ByName(protoreflect.Name("Pull" + x))
-		if u == nil || p == nil || !p.IsStreamingServer() || u.IsStreamingServer() {
+		if p == nil {
+			p = ms.ByName(protoreflect.Name("Pull" + x + "s")) // GetEnterLeaveEvent / PullEnterLeaveEvents
+		}
+		if p == nil || !p.IsStreamingServer() {
 			continue
 		}
-		// shape: Update returns R, its request carries a field of type R; Pull's changes carry R
-		if u.Output().FullName() != g.Output().FullName() || payloadField(u.Input(), g.Output()) == nil {
+		if u != nil {
+			// shape: Update returns R, its request carries a field of type R; Pull's changes carry R
+			if u.IsStreamingServer() || u.Output().FullName() != g.Output().FullName() || payloadField(u.Input(), g.Output()) == nil {
+				continue
+			}
+		}
+		// Pull's changes must carry R
+		if cf := p.Output().Fields().ByName("changes"); cf == nil || cf.Message() == nil || payloadField(cf.Message(), g.Output()) == nil {
 			continue
 		}
 		if g.Input().Fields().ByName("read_mask") == nil || p.Input().Fields().ByName("updates_only") == nil {
@@ -171,6 +187,10 @@ type pullStream struct {
 	ch     chan streamMsg
 	queue  []expect
 	closed bool
+	// established: the server-side subscription is known to exist. The Pull RPC returns before the handler
+	// has subscribed (as with real gRPC); a seeded stream proves it by delivering the seed, an updates_only
+	// stream only by delivering its first message: until then an update may legitimately be missed.
+	established bool
 }
 
 type streamMsg struct {
@@ -202,8 +222,8 @@ type session struct {
 	step    int
 	failed  bool
 	sid     sessionID
+	pokes   []reflect.Value // model-level writers of the resource (pairs only)
 
-	notExposed bool
 }
 
 func txt(m proto.Message) string {
@@ -343,11 +363,15 @@ func (s *session) doGet(mask *fieldmaskpb.FieldMask) {
 	}
 	if err, _ := out[1].Interface().(error); err != nil {
 		s.trace = append(s.trace, stepDesc{s.step, op, "error: " + err.Error()})
-		if s.step < 0 && status.Code(err) == codes.Unimplemented {
-			// this server does not expose the resource through Get: outside the property's quantifier
-			s.mon.Count("not-exposed:" + s.t.key())
-			s.notExposed = true
+		if s.step < 0 && status.Code(err) == codes.NotFound {
+			// nothing is registered under this name in a server that keys its registers by the request name
+			// (metadatapb.CollectionServer): no register to observe
+			s.mon.Count("no-register-under-name:" + s.t.key())
 			s.failed = true
+			return
+		}
+		if status.Code(err) == codes.Unimplemented {
+			s.obs("getunimpl", s.violate("Get/unimplemented", "the server is registered for a service with a Get/Update/Pull triple but answers its Get with Unimplemented (method missing or misnamed)", "a response", err.Error()))
 			return
 		}
 		s.obs("geterr", s.violate("Get/error", "Get returned an error", "a response", err.Error()))
@@ -434,7 +458,7 @@ func (s *session) doUpdate() {
 			s.fact(st.mask, prev)
 		}
 		w := project(st.mask, s.cur)
-		must := prev == nil || !proto.Equal(w, project(st.mask, prev))
+		must := (prev == nil || !proto.Equal(w, project(st.mask, prev))) && st.established
 		st.queue = append(st.queue, expect{val: w, must: must})
 	}
 	s.obs(fmt.Sprintf("updok %d", s.id(got)), "ok")
@@ -457,6 +481,7 @@ func (s *session) recvOne(i int, m streamMsg) {
 		st.queue = st.queue[1:]
 	default:
 		st.queue = st.queue[1:]
+		st.established = true
 		if m.name != devName {
 			v = s.violate("Pull/wrong-name", "a change on a Pull stream does not carry the name given in the Pull request", devName, m.name)
 		}
@@ -526,10 +551,10 @@ func (s *session) doPull() {
 	if fd := req.Descriptor().Fields().ByName("updates_only"); fd != nil {
 		req.Set(fd, protoreflect.ValueOfBool(uo))
 	}
-	op := fmt.Sprintf("Pull%s(read_mask=%v updates_only=%v)", s.t.X, paths(mask), uo)
+	op := fmt.Sprintf("%s(read_mask=%v updates_only=%v)", s.t.pull.Name(), paths(mask), uo)
 	ctx, cancel := context.WithCancel(context.Background())
 	var out []reflect.Value
-	m := s.client.MethodByName("Pull" + s.t.X)
+	m := s.client.MethodByName(string(s.t.pull.Name()))
 	panicked, pm := lib.Catch(func() {
 		out = m.Call([]reflect.Value{reflect.ValueOf(ctx), reflect.ValueOf(req.Interface())})
 	})
@@ -595,7 +620,10 @@ func (s *session) doPull() {
 func (s *session) drainSeed(i int) {
 	st := s.streams[i]
 	if len(st.queue) == 0 {
-		// updates_only: nothing may arrive
+		// updates_only: nothing may arrive; yield so that the handler gets to subscribe
+		for i := 0; i < 200; i++ {
+			runtime.Gosched()
+		}
 		select {
 		case m, ok := <-st.ch:
 			if ok && m.err == nil {
@@ -680,7 +708,9 @@ func runSession(t triple, sid sessionID, mon *lib.Monitor) (lines, verdicts []st
 	r := seqRand(sid.Seed, sid.Triple, sid.Seq)
 	s := &session{t: t, r: r, g: pbgen.New(r), ids: map[string]int{}, maskIDs: map[string]int{}, mon: mon, sid: sid}
 	s.g.MaxDepth = 2
-	s.client = reflect.ValueOf(t.Row.New())
+	cl, model := t.Row.New()
+	s.client = reflect.ValueOf(cl)
+	s.pokes = pokeMethods(model, t.resource)
 	s.input = func(n int) any {
 		return map[string]any{"kind": "triple", "triple": sid.Triple, "seed": sid.Seed, "seq": sid.Seq, "steps": n, "trace": tailTrace(s.trace, 14)}
 	}
@@ -698,7 +728,11 @@ func runSession(t triple, sid sessionID, mon *lib.Monitor) (lines, verdicts []st
 		reportProgress(progress{Sid: sid, Step: i, Op: "next", Trace: tailTrace(s.trace, 12)})
 		switch x := s.r.Intn(20); {
 		case x < 9:
-			s.doUpdate()
+			if s.t.isPair() {
+				s.doPoke()
+			} else {
+				s.doUpdate()
+			}
 		case x < 14:
 			s.doGet(s.randMask(s.t.resource, 40))
 		case x < 18:
@@ -739,4 +773,96 @@ func allTriples() ([]triple, map[string]string, error) {
 	}
 	sort.Slice(out, func(i, j int) bool { return out[i].key() < out[j].key() })
 	return out, services, nil
+}
+
+var tWriteOpt = reflect.TypeOf((*resource.WriteOption)(nil)).Elem()
+
+// pokeMethods finds the model's own writers of resource r: exported methods named Update*/Set*/Create*/Add*/Merge*
+// whose only mandatory parameter is a *R (optionally followed by ...resource.WriteOption).
+func pokeMethods(model any, r protoreflect.MessageDescriptor) []reflect.Value {
+	if model == nil {
+		return nil
+	}
+	v := reflect.ValueOf(model)
+	t := v.Type()
+	var out []reflect.Value
+	for i := 0; i < t.NumMethod(); i++ {
+		m := t.Method(i)
+		ok := false
+		for _, p := range []string{"Update", "Set", "Create", "Add", "Merge"} {
+			ok = ok || strings.HasPrefix(m.Name, p)
+		}
+		mt := m.Type
+		if !ok || mt.NumIn() < 2 || mt.NumIn() > 3 {
+			continue
+		}
+		in := mt.In(1)
+		pm, isProto := reflect.Zero(in).Interface().(proto.Message)
+		if !isProto || in.Kind() != reflect.Ptr || pm.ProtoReflect().Descriptor().FullName() != r.FullName() {
+			continue
+		}
+		if mt.NumIn() == 3 && !(mt.IsVariadic() && mt.In(2).Elem() == tWriteOpt) {
+			continue
+		}
+		out = append(out, v.Method(i))
+	}
+	return out
+}
+
+// doPoke writes the register at the model level (the service has no Update RPC); the value it now
+// holds is read back with a full Get and plays the role of the Update response.
+func (s *session) doPoke() {
+	if len(s.pokes) == 0 {
+		return
+	}
+	m := s.pokes[s.r.Intn(len(s.pokes))]
+	s.g.Density = 0.5
+	payload := s.g.Message(newMsg(s.t.resource).Type())
+	stripTweens(payload.ProtoReflect())
+	op := fmt.Sprintf("model-level write(%s)", txt(payload))
+	reportProgress(progress{Sid: s.sid, Step: s.step, Op: op, Trace: tailTrace(s.trace, 12)})
+	var outs []reflect.Value
+	panicked, pmsg := lib.Catch(func() { outs = m.Call([]reflect.Value{reflect.ValueOf(payload)}) })
+	if panicked {
+		s.trace = append(s.trace, stepDesc{s.step, op, "panic: " + pmsg})
+		return // a model-level panic on arbitrary input is not this property's concern
+	}
+	for _, o := range outs {
+		if err, ok := o.Interface().(error); ok && err != nil {
+			s.trace = append(s.trace, stepDesc{s.step, op, "error: " + err.Error()})
+			s.mon.Count("poke-error")
+			s.obs("upderr", "ok")
+			s.drain(false)
+			s.doGet(nil)
+			return
+		}
+	}
+	s.mon.Count("poke-ok")
+	// read the new value back
+	req := newMsg(s.t.get.Input())
+	setStr(req, "name", devName)
+	gout, pm := s.call("Get"+s.t.X, req.Interface())
+	if pm != "" || gout[1].Interface() != nil {
+		s.trace = append(s.trace, stepDesc{s.step, op, "Get after the write failed"})
+		s.obs("geterr", s.violate("Get/error", "Get failed after a model-level write", "a response", pm))
+		return
+	}
+	got := gout[0].Interface().(proto.Message)
+	s.trace = append(s.trace, stepDesc{s.step, op, "now " + txt(got)})
+	prev := s.cur
+	s.cur = proto.Clone(got)
+	for _, st := range s.streams {
+		if st.closed {
+			continue
+		}
+		s.fact(st.mask, s.cur)
+		if prev != nil {
+			s.fact(st.mask, prev)
+		}
+		w := project(st.mask, s.cur)
+		must := (prev == nil || !proto.Equal(w, project(st.mask, prev))) && st.established
+		st.queue = append(st.queue, expect{val: w, must: must})
+	}
+	s.obs(fmt.Sprintf("updok %d", s.id(got)), "ok")
+	s.drain(true)
 }
